@@ -120,6 +120,22 @@ Extend(q, nb, max) == IF nb < Len(q) /\ SumTo(q, nb + 1) <= max THEN Extend(q, n
 Elig(S, P, b) == b.sys[1] = "-" \/ ~P.uc \/ Clock(S) + P.a >= b.sys[2]
 Timeout(S, P, b) == b.sys[2] - Clock(S) - P.a
 
+\* upipe_helper_output re-plumbing: when an output changes, every request that was travelling through it is
+\* withdrawn from where it waited and registered again along the new path (a request that reaches no sink
+\* waits at the probe, which does not answer); those that did not move keep their place
+PendingReq(S, p) == S.p[p].ex /\ ( (S.p[p].k = "tblk" /\ S.p[p].pf # "-" /\ ~S.p[p].um)
+                                  \/ (S.p[p].k = "time_limit" /\ ~S.p[p].uc
+                                      /\ \E x \in SinkNames : \E i \in 1..Len(S.s[x].rq) : S.s[x].rq[i] = p) )
+Reroute(S) ==
+    LET Moved(x) == LET RECURSIVE G(_)
+                        G(i) == IF i > Len(PN) THEN <<>>
+                                ELSE (IF PendingReq(S, PN[i]) /\ EndSink(S, PN[i]) = x
+                                         /\ ~\E j \in 1..Len(S.s[x].rq) : S.s[x].rq[j] = PN[i]
+                                      THEN <<PN[i]>> ELSE <<>>) \o G(i + 1)
+                    IN G(1)
+    IN [S EXCEPT !.s = TLCEval([x \in SinkNames |->
+            [S.s[x] EXCEPT !.rq = SelectSeq(@, LAMBDA y : S.p[y].ex /\ EndSink(S, y) = x) \o Moved(x)]])]
+
 \* every control command makes upipe_disblo allocate its pump and upipe_time_limit ask for a clock:
 \* the request is answered at once by the probe when the pipe has no output, else it waits at the sink
 Ctl(S, p) ==
@@ -332,11 +348,15 @@ Effect(S, c) ==
       [] c.op = "setfd" -> SetFdOn(S, c.p, c.f)
       [] c.op = "out" ->
             IF S.p[c.p].k = "null" THEN S
-            ELSE Ctl([S EXCEPT !.p[c.p].out = IF c.t = "null" THEN "-" ELSE c.t, !.p[c.p].os = 0], c.p)
+            ELSE Ctl(Reroute([S EXCEPT !.p[c.p].out = IF c.t = "null" THEN "-" ELSE c.t, !.p[c.p].os = 0]), c.p)
       [] c.op = "in" -> Push(S, c.p, c.b, "-")
       [] c.op = "opt" ->
             LET S1 == Ctl(S, c.p) IN
-            (CASE OptKind(c.name) # S.p[c.p].k -> S1
+            (CASE c.name = "dict" /\ S.p[c.p].k = "setflowdef" ->
+                    \* upipe_setflowdef merges the dictionary into its OUTPUT flow definition: a different
+                    \* dictionary is a new flow definition, to be negotiated again before the next buffer
+                    [S1 EXCEPT !.p[c.p].tg = c.v, !.p[c.p].os = IF c.v # S.p[c.p].tg THEN 0 ELSE @]
+               [] OptKind(c.name) # S.p[c.p].k -> S1
                [] c.name = "match" -> [S1 EXCEPT !.p[c.p].a = c.v, !.p[c.p].b = c.w]
                [] c.name = "drop" -> SetP(S1, c.p, "b", c.v)
                [] c.name = "dict" -> SetP(S1, c.p, "tg", c.v)
@@ -433,7 +453,8 @@ NumMarks(S) == LET RECURSIVE Sum(_)
                    Sum(i) == IF i = 0 THEN 0 ELSE Len(S.p[PN[i]].q) - NumBufs(S.p[PN[i]].q) + Sum(i - 1)
                IN Sum(Len(PN))
 EpiRound(S) ==
-    SeqOf([s \in SinkNames |-> IF S.s[s].ex /\ \E p \in PipeNames : S.p[p].ex /\ S.p[p].k \in {"tblk", "time_limit"}
+    \* (every sink answers, whatever the model believes about who is still waiting: the real pipes decide)
+    SeqOf([s \in SinkNames |-> IF S.s[s].ex
                                THEN [i \in 1..(2 + NumMarks(S)) |-> [op |-> "provall", s |-> s]] ELSE <<>>], SN)
     \o <<[op |-> "adv", t |-> 100000]>>
     \o SeqOf([p \in PipeNames |-> IF S.p[p].ex /\ S.p[p].k \in {"buffer", "disblo"}
